@@ -98,6 +98,7 @@ void repeatAddIndexes(std::function<bool(const std::vector<int> &index)> inside,
  * \endinternal
  */
 inline MultiIndexSet unionSets(std::vector<MultiIndexSet> &level_sets){
+    if (level_sets.empty()) return MultiIndexSet(); // e.g., the polynomial space of a grid that has no tensors yet
     long long num_levels = level_sets.size();
     while(num_levels > 1){
         long long stride = num_levels / 2 + (((num_levels % 2) > 0) ? 1 : 0);
